@@ -63,15 +63,23 @@ def project_nuts(run):
     out = [{"e": "reset"}]
     in_draw = False
     search_err = False
+    last_mom = None
     e0 = None
     for ev in run:
         k = ev["ev"]
-        if k == "traj_init":
+        if k == "momentum":
+            last_mom = ev
+        elif k == "traj_init":
             in_draw = True
             e0 = f_from_bits(ev["e0"])
+            # the energy every weight and energy error of this trajectory is measured against is the energy of the start
+            # point *with the momentum just drawn* (bit for bit)
+            e0ok = True
+            if last_mom is not None and "e" in last_mom:
+                e0ok = (last_mom["e"] == last_mom["e0"] == ev["e0"]) or (f_from_bits(ev["e0"]) != f_from_bits(ev["e0"]))
             out.append({"e": "init", "mind": ev["mind"], "maxd": ev["maxd"], "cfgMaxd": ev["cfg_maxd"],
                         "extra": ev["extra"], "check": ev["check"], "dim": ev["dim"], "ph": ev["ph"],
-                        "e0": ev["e0"], "logp": ev["logp"]})
+                        "e0": ev["e0"], "logp": ev["logp"], "e0ok": bool(e0ok)})
         elif k == "dir" and in_draw:
             out.append({"e": "dir", "d": 1 if ev["d"] == "F" else -1, "check": ev["check"]})
         elif k == "leap" and in_draw:
@@ -143,11 +151,66 @@ def fnv_bits(bitstrs):
     return "%016x" % h
 
 
+class EstimatorModel:
+    """The documented step-size recursions (dual averaging / Adam), replayed from the statistics of the draws."""
+
+    def __init__(self, method, opts, target):
+        self.method, self.o, self.target = method, opts, target
+        self.ready = False
+
+    def restart(self, step):
+        self.ready = step > 0 and math.isfinite(step)
+        if not self.ready:
+            return
+        if self.method == "DualAverage":
+            self.log_step = math.log(step)
+            self.log_adapted = math.log(step)
+            self.hbar = 0.0
+            self.mu = math.log(10.0 * step)
+            self.count = 1
+        else:
+            self.log_step = math.log(step)
+            self.m = self.v = 0.0
+            self.t = 0
+
+    def advance(self, acc):
+        if not self.ready or acc is None or not math.isfinite(acc):
+            self.ready = False
+            return
+        if self.method == "DualAverage":
+            o = self.o
+            w = 1.0 / (self.count + o["t0"])
+            self.hbar = (1.0 - w) * self.hbar + w * (self.target - acc)
+            self.log_step = min(self.mu - self.hbar * math.sqrt(self.count) / o["gamma"], math.log(o["max_step_size"]))
+            mk = self.count ** (-o["k"])
+            self.log_adapted = mk * self.log_step + (1.0 - mk) * self.log_adapted
+            self.count += 1
+        else:
+            o = self.o
+            g = acc - self.target
+            self.t += 1
+            self.m = o["beta1"] * self.m + (1.0 - o["beta1"]) * g
+            self.v = o["beta2"] * self.v + (1.0 - o["beta2"]) * g * g
+            mh = self.m / (1.0 - o["beta1"] ** self.t)
+            vh = self.v / (1.0 - o["beta2"] ** self.t)
+            self.log_step += o["learning_rate"] * mh / (math.sqrt(vh) + o["epsilon"])
+
+    def step(self, best):
+        if not self.ready:
+            return None
+        try:
+            if self.method == "DualAverage" and best:
+                return math.exp(self.log_adapted)
+            return math.exp(self.log_step)
+        except OverflowError:
+            return None
+
+
 def project_adapt(sc, run):
     """AdaptScheduleTrace vocabulary: one line per draw. Returns (events, problems)."""
     from fractions import Fraction
     lines = []
-    cur = {"ret": None, "adapt": None, "ss": [], "ss_set": []}
+    cur = {"ret": None, "adapt": None, "ss": [], "ss_set": [], "seq": []}
     draws = []
     for ev in run:
         k = ev["ev"]
@@ -157,12 +220,16 @@ def project_adapt(sc, run):
             cur["adapt"] = ev
         elif k == "ss_advance":
             cur["ss"].append(ev)
+            cur["seq"].append(ev)
         elif k == "ss_set":
             cur["ss_set"].append(ev)
+            cur["seq"].append(ev)
+        elif k == "search_end":
+            cur["seq"].append(ev)
         elif k == "draw_out":
             cur["out"] = ev
             draws.append(cur)
-            cur = {"ret": None, "adapt": None, "ss": [], "ss_set": []}
+            cur = {"ret": None, "adapt": None, "ss": [], "ss_set": [], "seq": []}
     draws = [d for d in draws if d["out"]["res"] == "ok" and d["adapt"] is not None]
     if not draws:
         return [], []
@@ -193,6 +260,14 @@ def project_adapt(sc, run):
         if d["adapt"]["draw"] == max(num_tune - 1, 0):
             bar_final = sval(d["out"]["stats"], "step_size_bar")
     good_pts = []      # (position, gradient) of the accepted draws so far, in order
+    # the documented recursion of the estimator in use, replayed from the draws' own statistics (C07)
+    ad = sss.get("adapt_options", {})
+    da = dict({"k": 0.75, "t0": 10.0, "gamma": 0.05, "max_step_size": math.pi}, **ad.get("dual_average", {}))
+    adam = dict({"beta1": 0.9, "beta2": 0.999, "epsilon": 1e-8, "learning_rate": 0.05}, **ad.get("adam", {}))
+    model = None
+    if method in ("DualAverage", "Adam"):
+        model = EstimatorModel(method, da if method == "DualAverage" else adam, sss.get("target_accept", 0.8))
+    first_search = True
     advanced = False   # has the step-size estimator been advanced since the last (re-)run of the search?
     grad_based = ao.get("mass_matrix_options", {}).get("use_grad_based_estimate", True)
     for d in draws:
@@ -298,6 +373,24 @@ def project_adapt(sc, run):
             good = "t" if ((abs(idx) > 4) if div else (idx != 0)) else "f"
         else:
             good = "na"
+        daok = True
+        if model is not None:
+            for e2 in d["seq"]:
+                if e2["ev"] == "search_end":
+                    if e2["outcome"] == "fixed":
+                        model = None
+                        break
+                    if e2["outcome"] == "found" or first_search:
+                        model.restart(f_from_bits(e2["est"]))
+                    first_search = False
+                elif e2["ev"] == "ss_advance":
+                    ref = sval(stt, "mean_tree_accept" if e2["which"] == "early" else "mean_tree_accept_sym")
+                    model.advance(f_from_bits(ref) if ref else None)
+                elif e2["ev"] == "ss_set":
+                    want = model.step(bool(e2["best"]))
+                    got = f_from_bits(e2["base"])
+                    if want is not None and math.isfinite(got) and not close(want, got, rel=1e-9):
+                        daok = False
         fedcalls = ",".join(x["which"] for x in d["ss"])
         fedvalok = True
         for x in d["ss"]:
@@ -308,7 +401,7 @@ def project_adapt(sc, run):
                 "tid": a["tid"], "tuning": a["tuning"], "ptuning": o["progress"]["tuning"],
                 "stuning": sval(stt, "tuning"), "fedcalls": fedcalls, "fedvalok": fedvalok,
                 "barsame": bool(barsame), "inband": bool(inband), "stepok": bool(stepok), "good": good,
-                "diag": "lowrank" not in sc["preset"], "mmok": bool(mmok),
+                "diag": "lowrank" not in sc["preset"], "mmok": bool(mmok), "daok": bool(daok),
                 "stepf": step if math.isfinite(step) else None, "barf": bar if math.isfinite(bar) else None}
         if kind == "global":
             line.update({"switched": a["switched"], "changed": a["changed"], "research": a["research"],
